@@ -11,6 +11,8 @@ META = {
     'level': 'other',
     'configs': {'quick': ['default'], 'thorough': ['default', 'norayon', 'default_nodebug']},
     'rules': {
+        'R6': 'the surface a cell reports is exactly its own faces (C12.R1 link table): a face is listed by its left cell always and by its right cell iff it has a right generator and '
+              'no periodic shift — a cell that also lists its neighbours\' copies of wrapped faces, or misses one of its own, is not a closed surface (sum of area*normal != 0)',
         'R1': 'stored plane normals are unit and inward: every HalfSpace constructed on a path reachable by users is built with n == (L-R)/|L-R| (builder: n.n == 1, '
               'n.(L-R) == |L-R| > 0) or with an axis unit vector pointing into the box (walls)',
         'R2': 'the face normal is the outward one: VoronoiFace::normal() == -1 * (normal of the plane the face was created for), hence (R-L)/|R-L| resp. outward through the wall',
@@ -31,7 +33,7 @@ def run(ctx):
     for cfg in ctx.configs_used:
         F = ctx.facts(cfg)
         sfx = '' if cfg == 'default' else '@' + cfg
-        for fn in (r1, r2, r3, r4, r5):
+        for fn in (r1, r2, r3, r4, r5, r6):
             rule = 'C04.' + fn.__name__.upper()
             ctx.guarded(rule, 'evaluate' + sfx, lambda: fn(ctx, F, rule, sfx))
 
@@ -256,3 +258,8 @@ def r4(ctx, F, rule, sfx):
 
 def r5(ctx, F, rule, sfx):
     c02.r5(ctx, F, rule, sfx, only=lambda n: 'area' in n.lower() or 'Face' in n or 'Area' in n)
+
+
+def r6(ctx, F, rule, sfx):
+    from . import c12
+    c12.link_analysis(ctx, F, rule, sfx, prop='C04')
